@@ -1420,3 +1420,86 @@ Section Plain2.
     apply Hs1 in H1. apply Hs2 in H2. destruct (holder_fun _ _ _ _ _ _ H1 H2). assumption.
   Qed.
 End Plain2.
+
+(* ================================================================================================ *)
+(* Part 9: what cred_status means; fresh uids                                                         *)
+Definition creates_user (u : N) (pw : pwd) (ev : event) : Prop :=
+  exists salt v, ev = (CreateUser pw u salt, Ok v).
+
+Lemma cred_event_created : forall u a o x pw pep,
+  snd (cred_event u a (o, x)) = Some (pw, pep) ->
+  snd a = Some (pw, pep) \/ creates_user u pw (o, x).
+Proof.
+  intros u [c st] o x pw pep Hs.
+  destruct o; destruct x; cbn [cred_event snd] in Hs; try (left; exact Hs).
+  - destruct (N.eqb_spec fresh_uid u) as [E|E]; [|left; exact Hs].
+    inversion Hs; subst. right. exists fresh_salt, a. reflexivity.
+  - destruct (N.eqb_spec u0 u) as [E|E]; [discriminate|left; exact Hs].
+Qed.
+
+Lemma cred_status_created_gen : forall u h a pw pep,
+  snd (fold_left (cred_event u) h a) = Some (pw, pep) ->
+  snd a = Some (pw, pep) \/ exists ev, In ev h /\ creates_user u pw ev.
+Proof.
+  intros u h. induction h as [|[o y] h IH]; intros a pw pep Hs; [left; exact Hs|].
+  cbn [fold_left] in Hs. destruct (IH _ _ _ Hs) as [E|[ev [Hin Hc]]].
+  - apply cred_event_created in E. destruct E as [E|E]; [left; exact E|].
+    right. exists (o, y). split; [left; reflexivity|exact E].
+  - right. exists ev. split; [right; exact Hin|exact Hc].
+Qed.
+
+(* the password recorded for a uid is the one given to the successful create_user that returned that uid *)
+Theorem cred_status_created : forall c h u pw pep,
+  cred_status c h u = Some (pw, pep) -> exists ev, In ev h /\ creates_user u pw ev.
+Proof.
+  intros c h u pw pep Hs. destruct (cred_status_created_gen _ _ _ _ _ Hs) as [E|E]; [discriminate|exact E].
+Qed.
+
+Section Plain3.
+  Variable H : Type.
+  Variable hash : pwd -> N -> pepper -> H.
+  Variable verify_hash : H -> pwd -> pepper -> bool.
+  Hypothesis verify_ok : forall pw salt pep pw' pep',
+    verify_hash (hash pw salt pep) pw' pep' = true <-> pw' = pw /\ pep' = pep.
+
+  Notation step := (step H hash verify_hash).
+  Notation run := (run H hash verify_hash).
+  Notation history := (history H hash verify_hash).
+  Notation init := (init H).
+
+  (* a password verifies only for a user that was created with it *)
+  Theorem verified_password_is_the_users_own : forall c pre u pw,
+    rng_ok pre ->
+    snd (step (fst (run (init c) pre)) (Verify u pw)) = Ok (VBool true) ->
+    exists ev, In ev (history c pre) /\ creates_user u pw ev.
+  Proof.
+    intros c pre u pw Hr Ho.
+    destruct (verify_verdict H hash verify_hash verify_ok c pre u pw Hr) as [b [Eb Hb]].
+    rewrite Eb in Ho. inversion Ho; subst b. apply (cred_status_created c _ u pw _ (proj1 Hb eq_refl)).
+  Qed.
+
+  Lemma history_fresh_uid : forall c ops ev u pw, In ev (history c ops) -> creates_user u pw ev -> In u (fresh_uids ops).
+  Proof.
+    intros c ops ev u pw Hin [salt [v E]]. subst ev. unfold Auth.history in Hin. apply in_combine_l in Hin.
+    unfold fresh_uids. apply in_flat_map. exists (CreateUser pw u salt). split; [exact Hin|left; reflexivity].
+  Qed.
+
+  (* create_user succeeds, and returns the uid drawn for it, whenever that uid has not been drawn before *)
+  Theorem create_user_fresh_uid_succeeds : forall c pre pw fu salt,
+    rng_ok pre -> ~ In fu (fresh_uids pre) ->
+    snd (step (fst (run (init c) pre)) (CreateUser pw fu salt)) = Ok (VId fu).
+  Proof.
+    intros c pre pw fu salt Hr Hnf.
+    assert (Hr' : rng_ok (pre ++ [CreateUser pw fu salt])).
+    { unfold rng_ok, fresh_toks in *. rewrite flat_map_app. cbn [flat_map op_fresh_tok app]. rewrite app_nil_r. exact Hr. }
+    destruct (reach_inv H hash verify_hash verify_ok c pre [CreateUser pw fu salt] Hr') as [r [_ [Hff Hi]]].
+    destruct (inv_step H hash verify_hash verify_ok _ _ _ _ (CreateUser pw fu salt) [] Hi Hff) as [r' [Hrs _]].
+    pose proof (inv_cred _ _ _ _ _ _ Hi fu) as [_ Hst]. fold (cred_status c (history c pre) fu) in Hst.
+    remember (snd (step (fst (run (init c) pre)) (CreateUser pw fu salt))) as x eqn:Ex. clear Ex.
+    inversion Hrs; subst; [reflexivity|]. exfalso.
+    match goal with Hne : r_map r fu <> None |- _ => destruct (r_map r fu) as [e|] eqn:He; [|apply Hne; reflexivity] end.
+    assert (Hs : cred_status c (history c pre) fu = Some (e_pw e, e_pep e)) by (apply Hst; exists e; auto).
+    destruct (cred_status_created _ _ _ _ _ Hs) as [ev [Hin Hc]].
+    apply Hnf. apply (history_fresh_uid c pre ev fu (e_pw e) Hin Hc).
+  Qed.
+End Plain3.
